@@ -45,8 +45,11 @@ Init == \/ /\ mode = "admit" /\ kind \in Kinds /\ ext \in Exts /\ ecase \in {"lo
                           ELSE {"canonical"})
            \* "x+rels": the stray main part of an OOXML format together with a package relationship file naming it, inside an
            \* ODF / EPUB package (whose mimetype member says what it is; without [Content_Types].xml it is no OOXML package)
-           /\ decoy \in (IF kind \in Zips THEN {"none", "word", "xl", "ppt"} \cup (IF kind \in {"odt", "epub"} THEN {"word+rels", "xl+rels", "ppt+rels"} ELSE {})
-                          ELSE {"none"})
+           \* "magic-x": the signature bytes of ANOTHER format somewhere behind the start of the file, inside the window a
+           \* detector sniffs ("%PDF-1.7" in an HTML title or in a stored first member of a package, "<html>" in a stored member,
+           \* "PK\x03\x04" in an HTML comment): a signature identifies a format only where that format puts it
+           /\ decoy \in (IF kind \in Zips THEN {"none", "word", "xl", "ppt", "magic-pdf", "magic-html"} \cup (IF kind \in {"odt", "epub"} THEN {"word+rels", "xl+rels", "ppt+rels"} ELSE {})
+                          ELSE IF kind = "html" THEN {"none", "magic-pdf", "magic-zip"} ELSE {"none"})
            /\ epub = NoEpub
            \* how the package relationship names the main part of an OOXML document: relative ("xl/workbook.xml"),
            \* absolute ("/xl/workbook.xml") or with a dot segment ("./xl/workbook.xml") - all three are the same part
